@@ -156,7 +156,7 @@ theorem wf_set {t : Table} (wf : WF t) {h : Nat} (hl : h < t.length) (c : Chain)
     split at hc
     · next hi =>
       subst hi
-      simp only [hl, if_true, Option.some.injEq] at hc
+      simp only [Option.some.injEq] at hc
       subst hc
       exact hhome p hp
     · exact wf.home i c' hc p hp
@@ -165,7 +165,7 @@ theorem wf_set {t : Table} (wf : WF t) {h : Nat} (hl : h < t.length) (c : Chain)
     split at hc
     · next hi =>
       subst hi
-      simp only [hl, if_true, Option.some.injEq] at hc
+      simp only [Option.some.injEq] at hc
       subst hc
       exact hnd
     · exact wf.nodup i c' hc
